@@ -7,12 +7,14 @@ import Beetswap.Proofs.Codec
 Every model function is total (accepted by Lean without `partial`), and returns an explicit
 outcome for the inputs on which the Rust code errors or would panic: `ToCidRes.panic` /
 `ProcRes.panic` is the `expect` in `CidPrefix::to_cid`; `PRes.overrun` / `DecRes.overrun` marks the
-frames on which quick-protobuf's cursor crosses the end of a nested slice — on those the codec
-model leaves the third-party parser's behaviour unspecified (known findings F5 / F6).
+reads on which quick-protobuf's cursor would cross the end of a nested slice — where the
+third-party parser panics (overflow-checked builds) or loops forever (release builds): findings
+F5 / F6. `Codec::decode` now validates the nesting of every frame first (`check_nesting`), and
+`decode_never_overruns` proves that this class is unreachable for EVERY byte string.
 
-PARTIAL: the theorems below cover the CID layer, message classification, the behaviours'
-`debug_assert!`s and the codec on every frame that is not of the `overrun` class; the connection
-handlers' `debug_assert!`s are covered by the simulator (C14), not by a theorem.
+PARTIAL only in this: the client connection handler's `debug_assert!`s hold under the
+environment obligations of C14 (`send_wantlist_asserts`), which late acknowledgements break
+(finding F14); the server connection handler is covered by the simulator, not by a theorem.
 -/
 namespace Beetswap.Props.C08
 open Std Beetswap Beetswap.Cid Beetswap.Incoming Beetswap.Proto Beetswap.Frame Beetswap.Proofs.CidLayer
@@ -32,6 +34,36 @@ theorem valid_frame_never_overrun (fs : List Spec.Wire.MsgFld) (h : Spec.Wire.Ms
     (hs : (Spec.Wire.serMessage fs).length ≤ maxMessageSize) (rest : List Nat) :
     ∃ m, decode (Spec.Wire.uvar (Spec.Wire.serMessage fs).length ++ Spec.Wire.serMessage fs ++ rest) = .ok m rest :=
   ⟨_, Proofs.Codec.decode_valid_frame fs h hs rest⟩
+
+section
+open Beetswap.Spec.Wire
+/-- C08 for the codec: for EVERY byte string `decode` returns a message, asks for more bytes or
+fails the stream; the parser's unspecified class is unreachable. -/
+theorem decode_never_overruns (buf : List Nat) (hb : ∀ b ∈ buf, b < 256) : decode buf ≠ DecRes.overrun :=
+  Proofs.Codec.decode_never_overruns buf hb
+
+/-- A frame body that passes the pre-check never makes the parser read across the end of a
+slice: the unspecified class of the codec model is excluded.
+
+The hypothesis `hl` (the body is shorter than 4 GiB; `decode` only checks bodies of at most
+`maxMessageSize` = 4 MiB) is necessary: quick-protobuf reads the length of a nested message with
+`read_varint32`, i.e. modulo `2 ^ 32`, so on a body of `2 ^ 32` bytes or more the parser can cut a
+nested slice that is not the one the pre-check validated (`CodecOverrunCex.lean`:
+`checked_overruns_without_bound`). -/
+theorem checked_never_overruns (bs rest : List Nat) (hb : ∀ b ∈ bs, b < 256)
+    (hl : bs.length < 2 ^ 32)
+    (h : checkNesting (bs.length + 1) bs .message = true) :
+    parseMessage (bs ++ rest) bs.length ≠ PRes.overrun :=
+  Proofs.Codec.checked_never_overruns bs rest hb hl h
+
+/-- Every schema-valid encoding passes the pre-check (so the check rejects nothing an encoder
+conforming to the schema can produce). -/
+theorem check_valid_encoding (fs : List MsgFld) (h : MsgValid fs)
+    (hs : (serMessage fs).length ≤ maxMessageSize) :
+    checkNesting ((serMessage fs).length + 1) (serMessage fs) .message = true :=
+  Proofs.Codec.check_valid_encoding fs h hs
+
+end
 
 section
 open Beetswap.Client Beetswap.Wl Beetswap.Spec.ClientSpec Beetswap.Proofs.ClientQuery
